@@ -332,3 +332,532 @@ Proof.
   - left. apply count_of_zero. eapply Forall_weaken; [|apply dotted_v4char]. unfold v4char. intros; lia.
   - exact Hp.
 Qed.
+
+(* ====================================================================================== *)
+(** * 5. IPv6: one field *)
+(* ====================================================================================== *)
+
+Definition fld (g : Z) : Prop := 0 <= g < 65536.
+
+Lemma hexc_val : forall d, 0 <= d < 16 -> hex_val (hexc d) = Some d.
+Proof.
+  intros d Hd. unfold hexc, hex_val. destruct (Z.ltb_spec d 10) as [H|H].
+  - replace ((48 <=? 48 + d) && (48 + d <=? 57)) with true
+      by (symmetry; apply andb_true_iff; split; apply Z.leb_le; lia).
+    f_equal. lia.
+  - replace ((48 <=? 87 + d) && (87 + d <=? 57)) with false
+      by (symmetry; apply andb_false_iff; right; apply Z.leb_gt; lia).
+    replace ((97 <=? 87 + d) && (87 + d <=? 102)) with true
+      by (symmetry; apply andb_true_iff; split; apply Z.leb_le; lia).
+    f_equal. lia.
+Qed.
+
+Lemma hex_group_step : forall d s acc n, 0 <= d < 16 -> n < 4 ->
+  hex_group (hexc d :: s) acc n = hex_group s (acc * 16 + d) (n + 1).
+Proof.
+  intros d s acc n Hd Hn. cbn [hex_group]. rewrite hexc_val by exact Hd.
+  destruct (Z.geb_spec n 4); [lia|reflexivity].
+Qed.
+
+Lemma hex_group_rev : forall k fuel z rest, (k <= fuel)%nat -> (1 <= k <= 4)%nat -> 0 <= z < 16 ^ Z.of_nat k ->
+  exists m, 1 <= m <= Z.of_nat k /\ hex_group (rev (hex_rev fuel z) ++ rest) 0 0 = hex_group rest z m.
+Proof.
+  induction k as [|k IH]; intros fuel z rest Hf Hk Hz; [lia|].
+  destruct fuel as [|f]; [lia|].
+  rewrite hex_rev_S.
+  pose proof (Z.mod_pos_bound z 16 ltac:(lia)) as Hm.
+  pose proof (Z.div_mod z 16 ltac:(lia)) as Hdm.
+  destruct (Z.ltb_spec z 16) as [Hlt|Hge].
+  - exists 1. split; [lia|]. cbn [rev app]. rewrite hex_group_step by lia.
+    rewrite Z.mod_small by lia. reflexivity.
+  - rewrite Nat2Z.inj_succ, Z.pow_succ_r in Hz by lia.
+    destruct k as [|k]; [change (16 ^ Z.of_nat 0) with 1 in Hz; lia|].
+    destruct (IH f (z / 16) (hexc (z mod 16) :: rest)) as [m [Hm1 Hm2]]; [lia|lia| |].
+    { split; [apply Z.div_pos; lia | apply Z.div_lt_upper_bound; lia]. }
+    exists (m + 1). split; [lia|].
+    cbn [rev]. rewrite <- app_assoc. cbn [app]. rewrite Hm2.
+    rewrite hex_group_step by lia. f_equal. lia.
+Qed.
+
+Lemma hex_group_stop : forall rest acc n, (rest = [] \/ exists r, rest = 58 :: r) -> hex_group rest acc n = Some (acc, n, rest).
+Proof. intros rest acc n [-> | [r ->]]; reflexivity. Qed.
+
+Lemma hex_field : forall g rest, fld g -> (rest = [] \/ exists r, rest = 58 :: r) ->
+  exists m, 1 <= m /\ hex_group (hex_lower g ++ rest) 0 0 = Some (g, m, rest).
+Proof.
+  intros g rest Hg Hrest. unfold hex_lower.
+  destruct (hex_group_rev 4 16 g rest) as [m [Hm1 Hm2]]; [lia|lia|exact Hg|].
+  exists m. split; [lia|]. rewrite Hm2. apply hex_group_stop. exact Hrest.
+Qed.
+
+(* ====================================================================================== *)
+(** * 6. IPv6: the group loop *)
+(* ====================================================================================== *)
+
+Lemma lowhex_cases : forall c, lowhex c ->
+  c = 48 \/ c = 49 \/ c = 50 \/ c = 51 \/ c = 52 \/ c = 53 \/ c = 54 \/ c = 55 \/ c = 56 \/ c = 57 \/
+  c = 97 \/ c = 98 \/ c = 99 \/ c = 100 \/ c = 101 \/ c = 102.
+Proof. unfold lowhex. intros c H. lia. Qed.
+
+Lemma v6_step_last : forall fu g i ell before after, fld g -> i < 8 ->
+  v6_loop (S fu) (hex_lower g) i ell before after =
+  Some (i + 1, ell, (if ell then before else g :: before), (if ell then g :: after else after), []).
+Proof.
+  intros fu g i ell before after Hg Hi.
+  destruct (hex_field g [] Hg (or_introl eq_refl)) as [m [Hm1 Hm2]]. rewrite app_nil_r in Hm2.
+  cbn [v6_loop]. destruct (Z.geb_spec i 8); [lia|]. rewrite Hm2.
+  destruct (Z.eqb_spec m 0); [lia|]. reflexivity.
+Qed.
+
+Lemma v6_step_mid : forall fu g s' i ell before after, fld g -> i < 8 ->
+  (exists c r, s' = c :: r /\ lowhex c) ->
+  v6_loop (S fu) (hex_lower g ++ 58 :: s') i ell before after =
+  v6_loop fu s' (i + 1) ell (if ell then before else g :: before) (if ell then g :: after else after).
+Proof.
+  intros fu g s' i ell before after Hg Hi [c [r [-> Hc]]].
+  destruct (hex_field g (58 :: c :: r) Hg (or_intror (ex_intro _ _ eq_refl))) as [m [Hm1 Hm2]].
+  cbn [v6_loop]. destruct (Z.geb_spec i 8); [lia|]. rewrite Hm2.
+  destruct (Z.eqb_spec m 0); [lia|].
+  cbv iota. change (negb (58 =? 58)) with false. cbv iota.
+  assert (E : (c =? 58) = false) by (apply Z.eqb_neq; unfold lowhex in Hc; lia).
+  rewrite E. reflexivity.
+Qed.
+
+Lemma v6_step_ell : forall fu g r2 i before after, fld g -> i < 8 ->
+  v6_loop (S fu) (hex_lower g ++ 58 :: 58 :: r2) i false before after =
+  match r2 with
+  | [] => Some (i + 1, true, g :: before, after, [])
+  | _ => v6_loop fu r2 (i + 1) true (g :: before) after
+  end.
+Proof.
+  intros fu g r2 i before after Hg Hi.
+  destruct (hex_field g (58 :: 58 :: r2) Hg (or_intror (ex_intro _ _ eq_refl))) as [m [Hm1 Hm2]].
+  cbn [v6_loop]. destruct (Z.geb_spec i 8); [lia|]. rewrite Hm2.
+  destruct (Z.eqb_spec m 0); [lia|]. reflexivity.
+Qed.
+
+Lemma join_head : forall gs, gs <> [] -> exists c r, join_colon (map hex_lower gs) = c :: r /\ lowhex c.
+Proof.
+  intros gs Hne. destruct gs as [|g gs]; [congruence|].
+  destruct (hex_lower_head g) as [c [r [E Hc]]].
+  destruct gs as [|g' gs].
+  - cbn [map join_colon]. eauto.
+  - cbn [map]. rewrite join_colon_cons2, E. cbn [app]. eauto.
+Qed.
+
+(* a non-empty run of fields up to the end of the string *)
+Lemma v6_loop_tail : forall gs fu i ell before after, gs <> [] -> Forall fld gs ->
+  (length gs <= fu)%nat -> 0 <= i -> i + Z.of_nat (length gs) <= 8 ->
+  v6_loop fu (join_colon (map hex_lower gs)) i ell before after =
+  Some (i + Z.of_nat (length gs), ell, (if ell then before else rev gs ++ before),
+        (if ell then rev gs ++ after else after), []).
+Proof.
+  induction gs as [|g gs IH]; intros fu i ell before after Hne HF Hfu Hi Hlen; [congruence|].
+  inversion HF as [|g0 gs0 Hg HF']; subst.
+  destruct fu as [|fu]; [cbn [length] in Hfu; lia|].
+  destruct gs as [|g' gs].
+  - cbn [map join_colon]. rewrite v6_step_last; [|exact Hg|cbn [length] in Hlen; lia].
+    cbn [length rev app]. destruct ell; reflexivity.
+  - cbn [map]. rewrite join_colon_cons2.
+    change (hex_lower g' :: map hex_lower gs) with (map hex_lower (g' :: gs)).
+    rewrite v6_step_mid; [|exact Hg|cbn [length] in Hlen; lia|apply join_head; discriminate].
+    rewrite IH; [|discriminate|exact HF'|cbn [length] in *; lia|lia|cbn [length] in *; lia].
+    replace (i + 1 + Z.of_nat (length (g' :: gs))) with (i + Z.of_nat (length (g :: g' :: gs))) by (cbn [length]; lia).
+    destruct ell; cbn [rev]; rewrite <- ?app_assoc; reflexivity.
+Qed.
+
+(* a non-empty run of fields followed by the ellipsis *)
+Lemma v6_loop_pre : forall pre fu i before after rest2, pre <> [] -> Forall fld pre ->
+  0 <= i -> i + Z.of_nat (length pre) <= 8 ->
+  v6_loop (length pre + fu) (join_colon (map hex_lower pre) ++ 58 :: 58 :: rest2) i false before after =
+  match rest2 with
+  | [] => Some (i + Z.of_nat (length pre), true, rev pre ++ before, after, [])
+  | _ => v6_loop fu rest2 (i + Z.of_nat (length pre)) true (rev pre ++ before) after
+  end.
+Proof.
+  induction pre as [|g gs IH]; intros fu i before after rest2 Hne HF Hi Hlen; [congruence|].
+  inversion HF as [|g0 gs0 Hg HF']; subst.
+  destruct gs as [|g' gs].
+  - cbn [map join_colon length Nat.add]. rewrite v6_step_ell; [|exact Hg|cbn [length] in Hlen; lia].
+    cbn [rev app]. change (Z.of_nat 1) with 1. reflexivity.
+  - cbn [map]. rewrite join_colon_cons2.
+    change (hex_lower g' :: map hex_lower gs) with (map hex_lower (g' :: gs)).
+    rewrite <- app_assoc. cbn [app].
+    change (length (g :: g' :: gs) + fu)%nat with (S (length (g' :: gs) + fu)).
+    rewrite v6_step_mid; [|exact Hg|cbn [length] in Hlen; lia|].
+    2:{ destruct (join_head (g' :: gs) ltac:(discriminate)) as [c [r [E Hc]]]. rewrite E. cbn [app]. eauto. }
+    rewrite IH; [|discriminate|exact HF'|lia|cbn [length] in *; lia].
+    replace (i + 1 + Z.of_nat (length (g' :: gs))) with (i + Z.of_nat (length (g :: g' :: gs))) by (cbn [length]; lia).
+    cbn [rev]. rewrite <- !app_assoc. reflexivity.
+Qed.
+
+(* ====================================================================================== *)
+(** * 7. IPv6: parse_v6 on the two shapes of the printed address *)
+(* ====================================================================================== *)
+
+(* what parse_v6 does with the result of the group loop *)
+Definition v6_finish (o : option (Z * bool * list Z * list Z * str)) : option Z :=
+  match o with
+  | None => None
+  | Some (i, ell, before, after, rest) =>
+    match rest with
+    | _ :: _ => None
+    | [] =>
+      if i <? 8 then
+        if negb ell then None
+        else Some (groups_to_Z (rev before ++ repeat 0 (Z.to_nat (8 - i)) ++ rev after))
+      else if ell then None
+      else Some (groups_to_Z (rev before))
+    end
+  end.
+
+Lemma parse_v6_nostrip : forall c r, lowhex c -> count_of 37 (c :: r) = 0 ->
+  parse_v6 (c :: r) = v6_finish (v6_loop 9 (c :: r) 0 false [] []).
+Proof.
+  intros c r Hc H37. unfold parse_v6. rewrite H37. change (0 <? 0) with false. cbv iota.
+  apply lowhex_cases in Hc.
+  unfold v6_finish.
+  repeat (destruct Hc as [Hc|Hc]; [subst c; cbv beta iota zeta; reflexivity|]). subst c; cbv beta iota zeta; reflexivity.
+Qed.
+
+Lemma parse_v6_strip : forall c r, count_of 37 (c :: r) = 0 ->
+  parse_v6 (58 :: 58 :: c :: r) = v6_finish (v6_loop 9 (c :: r) 0 true [] []).
+Proof.
+  intros c r H37. unfold parse_v6.
+  replace (count_of 37 (58 :: 58 :: c :: r)) with 0 by (symmetry; exact H37).
+  change (0 <? 0) with false. unfold v6_finish. cbv beta iota zeta. reflexivity.
+Qed.
+
+Definition v6char (c : Z) : Prop := lowhex c \/ c = 58.
+
+Lemma join_v6char : forall gs, Forall v6char (join_colon (map hex_lower gs)).
+Proof.
+  intros gs. apply join_colon_Forall; [right; reflexivity|]. apply map_hex_Forall. intros c Hc. left. exact Hc.
+Qed.
+
+Lemma v6char_count : forall c s, c <> 58 -> ~ lowhex c -> Forall v6char s -> count_of c s = 0.
+Proof.
+  intros c s H1 H2 HF. apply count_of_zero. eapply Forall_weaken; [|exact HF].
+  intros x [Hx| ->] E; subst; auto.
+Qed.
+
+(* all eight fields written out *)
+Lemma parse_v6_full : forall fs, Forall fld fs -> length fs = 8%nat ->
+  parse_v6 (join_colon (map hex_lower fs)) = Some (groups_to_Z fs).
+Proof.
+  intros fs HF Hlen.
+  assert (Hne : fs <> []) by (intros ->; discriminate).
+  destruct (join_head fs Hne) as [c [r [E Hc]]].
+  assert (H37 : count_of 37 (join_colon (map hex_lower fs)) = 0).
+  { apply v6char_count; [lia | unfold lowhex; lia | apply join_v6char]. }
+  rewrite E in H37 |- *. rewrite parse_v6_nostrip by assumption. rewrite <- E.
+  rewrite v6_loop_tail; [|exact Hne|exact HF|lia|lia|lia].
+  rewrite Hlen. cbn [v6_finish]. change (0 + Z.of_nat 8 <? 8) with false. cbv iota.
+  rewrite app_nil_r, rev_involutive. reflexivity.
+Qed.
+
+(* a run of n >= 2 zero fields replaced by the ellipsis *)
+Lemma parse_v6_compressed : forall pre n post, Forall fld pre -> Forall fld post -> (2 <= n)%nat ->
+  (length pre + n + length post = 8)%nat ->
+  parse_v6 (join_colon (map hex_lower pre) ++ [58; 58] ++ join_colon (map hex_lower post)) =
+  Some (groups_to_Z (pre ++ repeat 0 n ++ post)).
+Proof.
+  intros pre n post Hpre Hpost Hn Hlen.
+  assert (Hfin : forall i, i = Z.of_nat (length pre) + Z.of_nat (length post) ->
+            v6_finish (Some (i, true, rev pre, rev post, [])) = Some (groups_to_Z (pre ++ repeat 0 n ++ post))).
+  { intros i Hi. cbn [v6_finish]. destruct (Z.ltb_spec i 8); [|lia]. cbn [negb].
+    rewrite !rev_involutive. replace (Z.to_nat (8 - i)) with n by lia. reflexivity. }
+  destruct pre as [|g pre].
+  - cbn [map join_colon app].
+    destruct post as [|h post].
+    + cbn [map join_colon]. assert (n = 8%nat) by (cbn [length] in Hlen; lia). subst n. reflexivity.
+    + destruct (join_head (h :: post) ltac:(discriminate)) as [c [r [E Hc]]].
+      assert (H37 : count_of 37 (join_colon (map hex_lower (h :: post))) = 0).
+      { apply v6char_count; [lia | unfold lowhex; lia | apply join_v6char]. }
+      rewrite E in H37 |- *. rewrite parse_v6_strip by assumption. rewrite <- E.
+      rewrite v6_loop_tail; [|discriminate|exact Hpost|lia|lia|lia].
+      rewrite app_nil_r. apply (Hfin (0 + Z.of_nat (length (h :: post)))). cbn [length]. lia.
+  - set (P := g :: pre) in *.
+    assert (HPne : P <> []) by (subst P; discriminate).
+    destruct (join_head P HPne) as [c [r [E Hc]]].
+    assert (H37 : count_of 37 (join_colon (map hex_lower P) ++ [58; 58] ++ join_colon (map hex_lower post)) = 0).
+    { apply v6char_count; [lia | unfold lowhex; lia |].
+      apply Forall_app. split; [apply join_v6char|]. cbn [app].
+      constructor; [right; reflexivity|]. constructor; [right; reflexivity|]. apply join_v6char. }
+    assert (Es : join_colon (map hex_lower P) ++ [58; 58] ++ join_colon (map hex_lower post) =
+                 c :: (r ++ [58; 58] ++ join_colon (map hex_lower post))) by (rewrite E; reflexivity).
+    rewrite Es in H37 |- *. rewrite parse_v6_nostrip by assumption. rewrite <- Es. cbn [app].
+    replace 9%nat with (length P + (9 - length P))%nat by lia.
+    rewrite v6_loop_pre; [|exact HPne|exact Hpre|lia|lia].
+    rewrite app_nil_r.
+    destruct post as [|h post].
+    + cbn [map join_colon]. apply (Hfin (0 + Z.of_nat (length P))). cbn [length]. lia.
+    + destruct (join_head (h :: post) ltac:(discriminate)) as [c' [r' [E' Hc']]].
+      rewrite E'. rewrite <- E'.
+      rewrite v6_loop_tail; [|discriminate|exact Hpost|cbn [length] in *; lia|lia|cbn [length] in *; lia].
+      rewrite app_nil_r. apply Hfin. lia.
+Qed.
+
+(* ====================================================================================== *)
+(** * 8. IPv6: the fields of an address, and the zero run chosen by the printer *)
+(* ====================================================================================== *)
+
+Lemma fields_length : forall a, length (fields a) = 8%nat.
+Proof. intros a. reflexivity. Qed.
+
+Lemma fields_fld : forall a, Forall fld (fields a).
+Proof.
+  intros a. unfold fields. apply Forall_forall. intros x Hx. apply in_map_iff in Hx.
+  destruct Hx as [i [<- _]]. unfold fld. apply Z.mod_pos_bound. lia.
+Qed.
+
+Lemma fields_explicit : forall a, fields a =
+  [ (a / 65536 / 65536 / 65536 / 65536 / 65536 / 65536 / 65536) mod 65536;
+    (a / 65536 / 65536 / 65536 / 65536 / 65536 / 65536) mod 65536;
+    (a / 65536 / 65536 / 65536 / 65536 / 65536) mod 65536;
+    (a / 65536 / 65536 / 65536 / 65536) mod 65536;
+    (a / 65536 / 65536 / 65536) mod 65536;
+    (a / 65536 / 65536) mod 65536;
+    (a / 65536) mod 65536;
+    a mod 65536 ].
+Proof.
+  intros a. unfold fields. cbn [map seq].
+  rewrite !Z.div_div by lia.
+  repeat (f_equal; [f_equal; f_equal; reflexivity|]).
+  f_equal. change (2 ^ (16 * (7 - Z.of_nat 7))) with 1. rewrite Z.div_1_r. reflexivity.
+Qed.
+
+Lemma groups_fields : forall a, 0 <= a < 2 ^ 128 -> groups_to_Z (fields a) = a.
+Proof.
+  intros a Ha. rewrite fields_explicit.
+  unfold groups_to_Z. cbn [fold_left].
+  pose proof (Z.div_mod a 65536 ltac:(lia)) as D0.
+  set (q1 := a / 65536) in *.
+  pose proof (Z.div_mod q1 65536 ltac:(lia)) as D1. set (q2 := q1 / 65536) in *.
+  pose proof (Z.div_mod q2 65536 ltac:(lia)) as D2. set (q3 := q2 / 65536) in *.
+  pose proof (Z.div_mod q3 65536 ltac:(lia)) as D3. set (q4 := q3 / 65536) in *.
+  pose proof (Z.div_mod q4 65536 ltac:(lia)) as D4. set (q5 := q4 / 65536) in *.
+  pose proof (Z.div_mod q5 65536 ltac:(lia)) as D5. set (q6 := q5 / 65536) in *.
+  pose proof (Z.div_mod q6 65536 ltac:(lia)) as D6. set (q7 := q6 / 65536) in *.
+  assert (H7 : 0 <= q7 < 65536).
+  { subst q7 q6 q5 q4 q3 q2 q1. rewrite !Z.div_div by lia.
+    split; [apply Z.div_pos; lia | apply Z.div_lt_upper_bound; [lia|]].
+    change (2 ^ 128) with 340282366920938463463374607431768211456 in Ha. lia. }
+  rewrite (Z.mod_small q7) by lia. lia.
+Qed.
+
+(* a candidate run (start, length): inside the list, all zero *)
+Definition zgood (full : list Z) (b : nat * nat) : Prop :=
+  (fst b + snd b <= length full)%nat /\ forall j, (fst b <= j < fst b + snd b)%nat -> nth j full 1 = 0.
+
+Lemma better_good : forall full b s n, zgood full b -> zgood full (s, n) ->
+  zgood full (if Nat.ltb (snd b) n then (s, n) else b).
+Proof. intros full b s n Hb Hs. destruct (Nat.ltb (snd b) n); assumption. Qed.
+
+Lemma zero_runs_good : forall l full pre i cs cl best,
+  full = pre ++ l -> length pre = i -> zgood full best -> zgood full (cs, cl) ->
+  (cl = 0 \/ cs + cl = i)%nat ->
+  zgood full (zero_runs l i cs cl best).
+Proof.
+  induction l as [|x r IH]; intros full pre i cs cl best Hfull Hpre Hbest Hcur Hinv.
+  - cbn [zero_runs]. apply better_good; assumption.
+  - cbn [zero_runs].
+    assert (Hfull' : full = (pre ++ [x]) ++ r) by (rewrite <- app_assoc; exact Hfull).
+    assert (Hpre' : length (pre ++ [x]) = S i) by (rewrite app_length; cbn [length]; lia).
+    assert (Hlen : length full = (i + S (length r))%nat) by (rewrite Hfull, app_length; cbn [length]; lia).
+    destruct (Z.eqb_spec x 0) as [Hx|Hx].
+    + apply (IH full (pre ++ [x])); try assumption.
+      * destruct Hcur as [Hc1 Hc2]. cbn [fst snd] in Hc1, Hc2.
+        assert (Hi : nth i full 1 = 0) by (rewrite Hfull, <- Hpre, nth_middle; exact Hx).
+        split; cbn [fst snd].
+        -- destruct (Nat.eqb_spec cl 0); lia.
+        -- intros j Hj. destruct (Nat.eqb_spec cl 0) as [E|E].
+           ++ assert (j = i) by lia. subst j. exact Hi.
+           ++ destruct (Nat.eq_dec j i) as [->|Hne]; [exact Hi|]. apply Hc2. lia.
+      * right. destruct (Nat.eqb_spec cl 0); lia.
+    + apply (IH full (pre ++ [x])); try assumption.
+      * apply better_good; assumption.
+      * split; cbn [fst snd]; [lia|]. intros j Hj. lia.
+      * left. reflexivity.
+Qed.
+
+Lemma zero_runs_spec : forall fs s n, zero_runs fs 0 0 0 (0%nat, 0%nat) = (s, n) ->
+  (s + n <= length fs)%nat /\ forall j, (s <= j < s + n)%nat -> nth j fs 1 = 0.
+Proof.
+  intros fs s n H.
+  assert (G0 : zgood fs (0%nat, 0%nat)) by (split; cbn [fst snd]; [lia | intros j Hj; lia]).
+  pose proof (zero_runs_good fs fs [] 0%nat 0%nat 0%nat (0%nat, 0%nat) eq_refl eq_refl G0 G0 (or_introl eq_refl)) as G.
+  rewrite H in G. exact G.
+Qed.
+
+Lemma zero_segment0 : forall n l, (n <= length l)%nat -> (forall j, (j < n)%nat -> nth j l 1 = 0) ->
+  l = repeat 0 n ++ skipn n l.
+Proof.
+  induction n as [|n IH]; intros l Hlen Hz; [reflexivity|].
+  destruct l as [|x l]; [cbn [length] in Hlen; lia|].
+  cbn [repeat skipn app]. f_equal.
+  - exact (Hz 0%nat ltac:(lia)).
+  - apply IH; [cbn [length] in Hlen; lia|]. intros j Hj. exact (Hz (S j) ltac:(lia)).
+Qed.
+
+Lemma zero_segment : forall s n l, (s + n <= length l)%nat -> (forall j, (s <= j < s + n)%nat -> nth j l 1 = 0) ->
+  l = firstn s l ++ repeat 0 n ++ skipn (s + n) l.
+Proof.
+  induction s as [|s IH]; intros n l Hlen Hz.
+  - cbn [firstn app Nat.add]. apply zero_segment0; [exact Hlen|]. intros j Hj. apply Hz. lia.
+  - destruct l as [|x l]; [cbn [length] in Hlen; lia|].
+    cbn [firstn Nat.add skipn app]. f_equal.
+    apply IH; [cbn [length] in Hlen; lia|]. intros j Hj. exact (Hz (S j) ltac:(lia)).
+Qed.
+
+(* ====================================================================================== *)
+(** * 9. IPv6: the address string *)
+(* ====================================================================================== *)
+
+Lemma Forall_firstn : forall (P : Z -> Prop) n l, Forall P l -> Forall P (firstn n l).
+Proof.
+  intros P n l H. apply Forall_forall. intros x Hx. rewrite Forall_forall in H. apply H.
+  rewrite <- (firstn_skipn n l). apply in_or_app. left. exact Hx.
+Qed.
+
+Lemma Forall_skipn : forall (P : Z -> Prop) n l, Forall P l -> Forall P (skipn n l).
+Proof.
+  intros P n l H. apply Forall_forall. intros x Hx. rewrite Forall_forall in H. apply H.
+  rewrite <- (firstn_skipn n l). apply in_or_app. right. exact Hx.
+Qed.
+
+Lemma parse_v6_string : forall a, 0 <= a < 2 ^ 128 -> a / 2 ^ 32 <> 65535 -> parse_v6 (v6_string a) = Some a.
+Proof.
+  intros a Ha Hm. unfold v6_string.
+  change 4294967296 with (2 ^ 32).
+  destruct (Z.eqb_spec (a / 2 ^ 32) 65535) as [E|_]; [contradiction|].
+  pose proof (fields_fld a) as HF. pose proof (fields_length a) as HL.
+  destruct (zero_runs (fields a) 0 0 0 (0%nat, 0%nat)) as [s n] eqn:Ez.
+  destruct (zero_runs_spec _ _ _ Ez) as [Hsn Hz].
+  destruct (Nat.ltb_spec n 2) as [Hn|Hn].
+  - rewrite parse_v6_full by assumption. rewrite groups_fields by exact Ha. reflexivity.
+  - rewrite (parse_v6_compressed (firstn s (fields a)) n (skipn (s + n) (fields a))).
+    + rewrite <- zero_segment by assumption. rewrite groups_fields by exact Ha. reflexivity.
+    + apply Forall_firstn. exact HF.
+    + apply Forall_skipn. exact HF.
+    + exact Hn.
+    + rewrite firstn_length_le by lia. rewrite skipn_length. lia.
+Qed.
+
+Lemma v6_string_v6char : forall a, a / 2 ^ 32 <> 65535 -> Forall v6char (v6_string a).
+Proof.
+  intros a Hm. unfold v6_string. change 4294967296 with (2 ^ 32).
+  destruct (Z.eqb_spec (a / 2 ^ 32) 65535) as [E|_]; [contradiction|].
+  destruct (zero_runs (fields a) 0 0 0 (0%nat, 0%nat)) as [s n].
+  destruct (Nat.ltb n 2); [apply join_v6char|].
+  apply Forall_app. split; [apply join_v6char|]. cbn [app].
+  constructor; [right; reflexivity|]. constructor; [right; reflexivity|]. apply join_v6char.
+Qed.
+
+Lemma join_has_colon : forall (l : list str), (2 <= length l)%nat -> In 58 (join_colon l).
+Proof.
+  intros l H. destruct l as [|x [|y r]]; cbn [length] in H; try lia.
+  rewrite join_colon_cons2. apply in_or_app. right. left. reflexivity.
+Qed.
+
+Lemma v6_string_has_colon : forall a, a / 2 ^ 32 <> 65535 -> In 58 (v6_string a).
+Proof.
+  intros a Hm. unfold v6_string. change 4294967296 with (2 ^ 32).
+  destruct (Z.eqb_spec (a / 2 ^ 32) 65535) as [E|_]; [contradiction|].
+  destruct (zero_runs (fields a) 0 0 0 (0%nat, 0%nat)) as [s n].
+  destruct (Nat.ltb n 2).
+  - apply join_has_colon. rewrite map_length, fields_length. lia.
+  - apply in_or_app. right. left. reflexivity.
+Qed.
+
+Lemma addr_kind_v6 : forall s, Forall v6char s -> In 58 s -> addr_kind s = 6.
+Proof.
+  intros s HF. induction HF as [|c s Hc HF IH]; intros Hin; [contradiction|].
+  cbn [addr_kind]. destruct Hc as [Hc| ->]; [|reflexivity].
+  unfold lowhex in Hc.
+  destruct (Z.eqb_spec c 46); [lia|]. destruct (Z.eqb_spec c 58); [lia|]. destruct (Z.eqb_spec c 37); [lia|].
+  apply IH. destruct Hin as [E|Hin]; [lia|exact Hin].
+Qed.
+
+Lemma parse_addr_v6_string : forall a, 0 <= a < 2 ^ 128 -> a / 2 ^ 32 <> 65535 ->
+  parse_addr (v6_string a) = Some (true, a).
+Proof.
+  intros a Ha Hm. unfold parse_addr.
+  rewrite (addr_kind_v6 _ (v6_string_v6char a Hm) (v6_string_has_colon a Hm)).
+  change (6 =? 4) with false. change (6 =? 6) with true. cbv iota.
+  rewrite parse_v6_string by assumption. reflexivity.
+Qed.
+
+Theorem parse_print_ip_v6 : forall a p, 0 <= a < 2 ^ 128 -> 0 <= p <= 128 -> a / 2 ^ 32 <> 65535 ->
+  parse_ip (print_ip true a p) = Some (true, a, p).
+Proof.
+  intros a p Ha Hp Hm. unfold print_ip.
+  apply (parse_ip_gen true (v6_string a) a p).
+  - apply parse_addr_v6_string; assumption.
+  - eapply Forall_weaken; [|apply v6_string_v6char; exact Hm]. unfold v6char, lowhex. intros; lia.
+  - right. apply v6char_count; [lia | unfold lowhex; lia | apply v6_string_v6char; exact Hm].
+  - exact Hp.
+Qed.
+
+(* ====================================================================================== *)
+(** * 10. Headline theorems *)
+(* ====================================================================================== *)
+
+Theorem parse_print_ip : forall v6 a p, ip_ok v6 a p = true -> parse_ip (print_ip v6 a p) = Some (v6, a, p).
+Proof.
+  intros v6 a p H. unfold ip_ok in H. apply andb_true_iff in H. destruct H as [Hwf Hm].
+  apply ip_wfb_spec in Hwf. unfold ip_wf in Hwf. destruct v6.
+  - destruct Hwf as [Ha Hp]. cbn [andb] in Hm. apply negb_true_iff, Z.eqb_neq in Hm.
+    apply parse_print_ip_v6; assumption.
+  - destruct Hwf as [Ha Hp]. apply parse_print_ip_v4; assumption.
+Qed.
+
+(* F30: an IPv4-mapped IPv6 address prints as ::ffff:1.2.3.4, which types.ParseIPAddr rejects *)
+Example F30_mapped : parse_ip (print_ip true 281470698652420 128) = None.
+Proof. vm_compute. reflexivity. Qed.
+
+Example F30_mapped_string : print_ip true 281470698652420 128 = [58; 58; 102; 102; 102; 102; 58; 49; 46; 50; 46; 51; 46; 52].
+Proof. vm_compute. reflexivity. Qed.
+
+(* the exclusion in ip_ok is exactly the failing set: every well-formed IPv4-mapped address fails to parse back *)
+Theorem mapped_never_roundtrips : forall a p, a / 2 ^ 32 = 65535 -> parse_ip (print_ip true a p) = None.
+Proof.
+  intros a p Hm.
+  assert (H : forall s, (count_of 58 (v6_string a ++ s) >=? 2) && (count_of 46 (v6_string a ++ s) >=? 2) = true).
+  { intros s. unfold v6_string. change 4294967296 with (2 ^ 32). rewrite Hm. change (65535 =? 65535) with true. cbv iota.
+    assert (Hnn : forall c l, 0 <= count_of c l).
+    { intros c l. induction l as [|x l IH]; cbn [count_of]; [lia|]. destruct (x =? c); lia. }
+    unfold dotted. cbn [app]. repeat (progress (rewrite ?count_of_app; cbn [count_of])).
+    change (58 =? 58) with true. change (46 =? 46) with true. change (102 =? 58) with false.
+    change (102 =? 46) with false. change (58 =? 46) with false. change (46 =? 58) with false. cbv iota.
+    repeat match goal with |- context [count_of ?c ?l] => generalize (Hnn c l); generalize (count_of c l); intros end.
+    apply andb_true_iff. split; apply Z.geb_le; lia. }
+  unfold print_ip, parse_ip. destruct (p =? 128).
+  - specialize (H []). rewrite app_nil_r in H. rewrite H. reflexivity.
+  - rewrite H. reflexivity.
+Qed.
+
+(* so, on well-formed values, ip_ok is exactly the set of values that parse back from their printed form *)
+Theorem ip_ok_exact : forall v6 a p, ip_wf v6 a p ->
+  (parse_ip (print_ip v6 a p) = Some (v6, a, p) <-> ip_ok v6 a p = true).
+Proof.
+  intros v6 a p Hwf. split; [|apply parse_print_ip].
+  intros H. unfold ip_ok. apply andb_true_iff. split; [apply ip_wfb_spec; exact Hwf|].
+  destruct v6; [|reflexivity]. cbn [andb]. apply negb_true_iff, Z.eqb_neq. intros Hm.
+  rewrite (mapped_never_roundtrips a p Hm) in H. discriminate.
+Qed.
+
+(* the shapes needed by the section hypotheses of C07 / C08 (print_ip_plain) and C09 / C13 / C08_same_meaning (ip_roundtrip) *)
+Definition print_ip_plain_concrete :
+  forall v6 a p, Forall (fun c => 32 <= c < 127 /\ c <> 34 /\ c <> 92) (print_ip v6 a p) := print_ip_plain_all.
+Definition ip_roundtrip_concrete :
+  forall v6 a p, ip_ok v6 a p = true -> parse_ip (print_ip v6 a p) = Some (v6, a, p) := parse_print_ip.
+
+Print Assumptions print_ip_plain_all.
+Print Assumptions print_ip_plain_holds.
+Print Assumptions parse_print_ip_v4.
+Print Assumptions parse_print_ip_v6.
+Print Assumptions parse_print_ip.
+Print Assumptions F30_mapped.
+Print Assumptions mapped_never_roundtrips.
+Print Assumptions ip_ok_exact.
